@@ -39,6 +39,12 @@ def q_program(shape, L1, L2, L3, RG, size, v, k, x):
     elif shape == 6:
         # begins with a loop that begins with an ordinary gate; a subcircuit only comes later: wrapped
         body = [["loop", L3, ["sequential_block", g, ["subcircuit_block", L1, g]]], ["gate", "n1", L2]]
+    elif shape == 8:
+        # begins with a subcircuit whose body is empty: not wrapped
+        body = [["subcircuit_block", k], ["subcircuit_block", L1, g, ["gate", "n1", L2]]]
+    elif shape == 9:
+        # begins with a loop whose first statement is an empty subcircuit: not wrapped
+        body = [["loop", L3, ["sequential_block", ["subcircuit_block", ""], ["subcircuit_block", L1, g]]], ["subcircuit_block", "", ["gate", "n1", L2]]]
     elif shape == 7:
         # begins with a block in which prepare_all is not the first statement: wrapped
         body = [["sequential_block", ["parallel_block", g], ["gate", "prepare_all"], ["subcircuit_block", k, g]], ["gate", "n1", 2.5]]
